@@ -332,7 +332,7 @@ func (e *Engine) VerifyProps(props []string, only map[string]bool, opts runOpts,
 				r, all = solve(preludeQF+stripQuantified(o.Query), 5000, "quick")
 			} else {
 				// 1. quantifier-free core first: unsat there implies unsat with the axioms
-				qf, qall := solve(preludeQF+stripQuantified(o.Query), opts.timeoutMs, opts.mode)
+				qf, qall := solve(preludeQF+abstractQuantified(o.Query), opts.timeoutMs, opts.mode)
 				all = append(all, qall...)
 				if qf.Verdict == "unsat" || qf.Verdict == "disagree" {
 					r = qf
@@ -425,6 +425,9 @@ func (e *Engine) VerifyProps(props []string, only map[string]bool, opts runOpts,
 		}
 		retried++
 		full, fall := solveRace(prelude+o.Query, 2*opts.timeoutMs)
+		if verbose {
+			fmt.Fprintf(os.Stderr, "retry %s p%d -> %s by %s (%.1fs)\n", o.Name, o.PathID, full.Verdict, full.Solver, full.Secs)
+		}
 		o.All = append(o.All, fall...)
 		rep.SolverSecs += full.Secs
 		if full.Verdict == "unsat" {
@@ -525,6 +528,85 @@ func groupObligations(obls []*Obligation) []*groupedObl {
 }
 
 var _ = ssa.NaiveForm
+
+// abstractQuantified replaces every outermost quantified subformula by a Boolean constant,
+// the same constant for the same text. The result is weaker than the original (the meaning of
+// the quantifiers is forgotten, their identity is kept): if it is unsatisfiable so is the
+// original. A fact that is assumed and required with identical text is thus decided without
+// any quantifier reasoning.
+func abstractQuantified(q string) string {
+	ids := map[string]int{}
+	var decls []string
+	var out strings.Builder
+	lines := strings.Split(q, "\n")
+	for _, l := range lines {
+		if !strings.Contains(l, "(forall ") && !strings.Contains(l, "(exists ") {
+			out.WriteString(l)
+			out.WriteString("\n")
+			continue
+		}
+		if !strings.HasPrefix(l, "(assert ") {
+			// declarations / definitions with quantifiers (axioms given as define-fun etc.): drop
+			continue
+		}
+		var b strings.Builder
+		i := 0
+		for i < len(l) {
+			j1 := strings.Index(l[i:], "(forall ")
+			j2 := strings.Index(l[i:], "(exists ")
+			j := j1
+			if j < 0 || (j2 >= 0 && j2 < j) {
+				j = j2
+			}
+			if j < 0 {
+				b.WriteString(l[i:])
+				break
+			}
+			j += i
+			b.WriteString(l[i:j])
+			// match parentheses
+			d, k := 0, j
+			for ; k < len(l); k++ {
+				if l[k] == '(' {
+					d++
+				} else if l[k] == ')' {
+					d--
+					if d == 0 {
+						break
+					}
+				}
+			}
+			if k >= len(l) {
+				// unbalanced within the line (multi-line term): give up on this line
+				b.Reset()
+				break
+			}
+			sub := l[j : k+1]
+			id, ok := ids[sub]
+			if !ok {
+				id = len(ids) + 1
+				ids[sub] = id
+				decls = append(decls, fmt.Sprintf("(declare-const qb!%d Bool)", id))
+			}
+			fmt.Fprintf(&b, "qb!%d", id)
+			i = k + 1
+		}
+		if b.Len() > 0 {
+			out.WriteString(b.String())
+			out.WriteString("\n")
+		}
+	}
+	// declarations first: put them before the first assert
+	res := out.String()
+	if len(decls) == 0 {
+		return res
+	}
+	idx := strings.Index(res, "(assert ")
+	if idx < 0 {
+		return strings.Join(decls, "\n") + "\n" + res
+	}
+	return res[:idx] + strings.Join(decls, "\n") + "\n" + res[idx:]
+}
 
 func stripQuantified(q string) string {
 	var b strings.Builder
